@@ -188,7 +188,10 @@ def check_batch(batch):
     ypc.clear()
     ypc.load_script_from_string(py, fn=impl.SCRIPT_FN)
     for j, (idx, cls, term, text) in enumerate(batch):
-        r = check_literal(yp, yp2, j, cls, term, text)
+        try:
+            r = check_literal(yp, yp2, j, cls, term, text)
+        except Exception as e:  # noqa: BLE001 - asking a predicate of the program about its literal does not raise
+            r = ('violation', 'query-raises:' + impl.exc_sig(e), 'literal %s: a query on the compiled program raised %r' % (text if text is not None else show_term(term), e), None, 1)
         if r[0] == 'ok':
             # the same on the engine that was used and cleared before the program was loaded
             rc = check_literal(ypc, yp2, j, cls, term, text)
